@@ -305,6 +305,7 @@ pub fn build(_ctx: &Ctx) -> Property {
             },
         )
         .serial()
+        .expensive()
         .witness(&["compiled-and-compared"]),
     );
     p.assume("a program is 'rejected by the compiler' when rustc reports at least one error whose primary span lies on the program's own line; errors of the name-resolution phase are removed and the rest re-checked so that every remaining program is judged by the type checker");
